@@ -262,7 +262,7 @@ fn part_b_for(w: &World, m1: u32, all_pairs: bool, pairs: &AtomicU64, rep: &mut 
     let (s1, r1) = block(store_for(w, m1));
     let firsts: Vec<Option<(Option<u64>, vp::VPrunerCache)>> = (1..=2 * n + 1).map(|k1| first_call(&s1, &r1, k1)).collect();
     let full_mask = (1u32 << n) - 1;
-    let mut visit = |m2: u32, rep: &mut Report| {
+    let visit = |m2: u32, rep: &mut Report| {
         let (s2, r2) = block(store_for(w, m2));
         pairs.fetch_add(1, Ordering::Relaxed);
         for k1 in 1..=2 * n + 1 {
